@@ -23,6 +23,54 @@ PATHNAMES = {"p": "p.bin", "q": "sub/q é.txt", "r": "r"}
 APIS = ["hash_file", "get_hashes", "build", "index_md5", "hash_file_info"]
 
 
+class _Racer:
+    """A binary reader that lets a writer in right after the last byte was handed out."""
+
+    def __init__(self, fobj, at_eof):
+        self.fobj, self.at_eof, self.fired = fobj, at_eof, False
+
+    def read(self, n=-1):
+        d = self.fobj.read(n)
+        if not d and not self.fired:
+            self.fired = True
+            self.at_eof()
+        return d
+
+    def tell(self):
+        return self.fobj.tell()
+
+    def close(self):
+        self.fobj.close()
+
+    def __enter__(self):
+        return self
+
+    def __exit__(self, *a):
+        if not self.fired:
+            self.fired = True
+            self.at_eof()
+        self.fobj.close()
+
+
+def racing_fs(path, when, write):
+    """A LocalFileSystem whose open(path) lets `write` happen before the bytes are read or after the last read."""
+    from dvc_objects.fs.local import LocalFileSystem
+
+    plan = {"armed": True}
+
+    class RacingFS(LocalFileSystem):
+        def open(self, p, mode="r", **kw):
+            if plan["armed"] and os.fspath(p) == path and "r" in mode:
+                plan["armed"] = False
+                if when == "before-read":
+                    write()
+                    return super().open(p, mode, **kw)
+                return _Racer(super().open(p, mode, **kw), write)
+            return super().open(p, mode, **kw)
+
+    return RacingFS(), plan
+
+
 class Files:
     def __init__(self, root):
         from dvc_objects.fs.local import LocalFileSystem
@@ -165,6 +213,45 @@ class Files:
                 ans[p] = self.ident("md5", e.hash_info.value)
         return ans, pads_ok
 
+    def query_race(self, p, alg, api, c, new_ino, new_mt, when):
+        """One query on path p, really hashed, with a writer replacing the file at the chosen instant."""
+        from dvc_data.fsutils import _localfs_info
+        from dvc_data.hashfile.build import _get_hashes, build
+        from dvc_data.hashfile.db.local import LocalHashFileDB
+        from dvc_data.hashfile.hash import hash_file
+
+        done = {}
+
+        def write():
+            done["ino"], done["mt"] = self.mutate(p, c, new_ino, new_mt)
+
+        fp = self.path(p)
+        fs, plan = racing_fs(fp, when, write)
+        if api == "hash_file":
+            _m, hi = hash_file(fp, fs, alg, self.state)
+            val = hi.value
+        elif api == "hash_file_info":
+            _m, hi = hash_file(fp, fs, alg, self.state, info=_localfs_info(fp))
+            val = hi.value
+        elif api == "get_hashes":
+            infos = {fp: _localfs_info(fp)}
+            val = _get_hashes([fp], fs, alg, infos, state=self.state)[fp][1].value
+        elif api == "build":
+            odb = LocalHashFileDB(fs, os.path.join(self.root, "cache"), state=self.state)
+            _stg, _meta, tree = build(odb, self.ws, fs, alg)
+            val = {"/".join(k): hi.value for k, _m, hi in tree}[PATHNAMES[p]]
+        else:  # index_md5
+            from dvc_data.index.build import build as ibuild
+            from dvc_data.index.save import md5 as imd5
+
+            idx = imd5(ibuild(self.ws, fs), state=self.state, name=alg)
+            val = idx[tuple(PATHNAMES[p].split("/"))].hash_info.value
+        if plan["armed"] or "ino" not in done:
+            # the file was not read at all (a cache hit where the model has none): the write happens after the call, so
+            # that the files keep following the history; the answer is reported as it came
+            write()
+        return {p: self.ident(alg, val)}, done["ino"], done["mt"]
+
     def inject(self, p, kind):
         from dvc_data.fsutils import _localfs_info
         from dvc_data.hashfile.state import _checksum
@@ -216,6 +303,12 @@ def run_trace(case):
     root = tlc.scratch_dir("c13-")
     f = Files(root)
     events = []
+    # whole-directory APIs (staging, index md5) record rows for every file; in behaviours generated with api = "any" a
+    # race needs the model's and the code's idea of "not cached" to agree, so those draw from the per-path APIs only
+    # (races through the whole-directory APIs are in the directed histories)
+    APIS = globals()["APIS"]
+    if any(o["op"] == "QueryRace" for o in case["ops"]):
+        APIS = ["hash_file", "get_hashes", "hash_file_info"] if any(o.get("api") == "any" for o in case["ops"]) else APIS
     try:
         for k, a in enumerate(case["ops"]):
             a = dict(a)
@@ -232,6 +325,11 @@ def run_trace(case):
                 api = a["api"] if a["api"] != "any" else APIS[(case["id"] + k) % len(APIS)]
                 a["api"] = api
                 ev["ans"], ev["pads_ok"] = f.query(sorted(a["P"]), a["alg"], api, with_pads=case.get("pads") and api == "get_hashes")
+            elif op == "QueryRace":
+                api = a["api"] if a["api"] != "any" else APIS[(case["id"] + k) % len(APIS)]
+                a["api"] = api
+                ev["ans"], ino, mt = f.query_race(a["p"], a["alg"], api, a["c"], a["ino"], a["mt"], a["when"])
+                a["ino"], a["mt"] = bool(ino), bool(mt)
             elif op == "Inject":
                 f.inject(a["p"], a["kind"])
             elif op == "Snapshot":
@@ -266,7 +364,7 @@ def sim_cases(num, depth, seed):
     cases = []
     for i, beh in enumerate(behs):
         ops = [to_json(st["act"]) for _l, st in beh[1:]]
-        if any(o["op"] in ("Query", "Carry") for o in ops):
+        if any(o["op"] in ("Query", "Carry", "QueryRace") for o in ops):
             cases.append({"id": i, "ops": ops})
     return cases
 
@@ -289,6 +387,15 @@ def directed_cases():
             q = {"op": "Query", "P": ["p"], "alg": "md5", "api": api}
             cases.append({"id": 200000 + n, "ops": [{"op": "Create", "p": "p", "c": "c1"}, {"op": "Inject", "p": "p", "kind": kind}, q, q]})
             n += 1
+    # a writer gets in during a query: before the bytes are read / after the last read; every later lookup must miss
+    for api in APIS:
+        for when in ("before-read", "after-read"):
+            for (c2, ino, mt) in [("c2", False, True), ("c3", True, True), ("c2", True, False)]:
+                ops = [{"op": "Create", "p": "p", "c": "c1"}, {"op": "Create", "p": "q", "c": "c3"},
+                       {"op": "QueryRace", "p": "p", "alg": "md5", "api": api, "c": c2, "ino": ino, "mt": mt, "when": when}]
+                ops += [{"op": "Query", "P": ["p", "q"], "alg": "md5", "api": a2} for a2 in APIS]
+                cases.append({"id": 400000 + n, "ops": ops})
+                n += 1
     # carry-over by metadata
     for (c2, ino, mt) in [("c2", False, True), ("c3", False, False), ("c2", True, False), ("c1", False, True)]:
         ops = [{"op": "Create", "p": "p", "c": "c1"}, {"op": "Create", "p": "r", "c": "c3"}, {"op": "Snapshot"}, {"op": "Carry"},
@@ -302,7 +409,7 @@ def check(run: core.Run, replay=None):
     core.assert_repo_tree()
     quick = run.tier == "quick"
     validate.run_design(run, "MC_StateCache", "StateCache_quick.cfg" if quick else "StateCache_thorough.cfg", workers=16,
-                        required_actions=["Mutate", "Delete", "Create", "Query", "Inject", "Snapshot", "Carry"],
+                        required_actions=["Mutate", "Delete", "Create", "Query", "QueryRace", "Inject", "Snapshot", "Carry"],
                         constants={"paths": 1, "contents": 3, "MaxSteps": 6 if quick else 7})
     validate.run_design(run, "MC_StateCache", "StateCache_quick2.cfg", workers=16, constants={"paths": 2, "MaxSteps": 5})
     if replay:
